@@ -54,7 +54,13 @@ class VWorld(object):
                      for k, n in enumerate(('d1', 'd2', 'd3'))}
         self.viewer = self.app.new_data_viewer(viewer_class(kind))
         self.groups = {}
+        self.alone = {}
         self.blocks = []
+
+    def subset_of(self, d, x):
+        if x == 9:
+            return self.alone[d]
+        return [s for s in self.data[d].subsets if getattr(s, 'group', None) is self.groups[x]][0]
 
     def step(self, a):
         op, d, x = a['op'], a['d'], a['x']
@@ -67,6 +73,16 @@ class VWorld(object):
             self.groups[x] = self.dc.new_subset_group(subset_state=ElementSubsetState(indices=[0, x]))
         elif op == 'RemoveGroup':
             self.dc.remove_subset_group(self.groups[x])
+        elif op == 'NewAlone':
+            from glue.core.subset import ElementSubsetState
+            self.alone[d] = self.data[d].new_subset(label='alone-' + d)
+            self.alone[d].subset_state = ElementSubsetState(indices=[1, 2])
+        elif op == 'DeleteAlone':
+            self.alone.pop(d).delete()
+        elif op == 'RemoveLayer':
+            self.viewer.remove_layer(self.data[d] if x == 0 else self.subset_of(d, x))
+        elif op == 'AddSubsetLayer':
+            self.viewer.add_subset(self.subset_of(d, x))
         elif op == 'ViewerAddData':
             self.viewer.add_data(self.data[d])
         elif op == 'ViewerRemoveData':
@@ -92,6 +108,15 @@ class VWorld(object):
                 if n not in names:      # datasets outside the collection belonged to the old session
                     self.data[n] = Data(label=n, x=np.arange(12, dtype=float).reshape(3, 4) + k, y=(np.arange(12, dtype=float).reshape(3, 4) * 2) % 5)
             self.groups = {i: g for i, g in zip(gids, self.dc.subset_groups)}
+            for n in list(self.alone):
+                if n in names:
+                    found = [sub for sub in self.data[n].subsets if sub.label == 'alone-' + n]
+                    if found:
+                        self.alone[n] = found[0]
+                    else:
+                        self.alone.pop(n)
+                else:
+                    self.alone.pop(n)
         else:
             raise ValueError(op)
 
@@ -111,7 +136,38 @@ class VWorld(object):
         from glue.core.data import BaseData
         if isinstance(layer, BaseData):
             return [self.name_of(layer), 0]
+        if layer.label.startswith('alone-') and getattr(layer, 'group', None) is None:
+            return [self.name_of(layer.data), 9]
         return [self.name_of(layer.data), self.gid(getattr(layer, 'group', None))]
+
+    def picker_problems(self):
+        """every selection property of the viewer state: the selection is one of the choices (or nothing when there is none), and
+        attribute choices belong to datasets of the collection"""
+        from echo import SelectionCallbackProperty
+        from glue.core.component_id import ComponentID
+        from glue.core.data import BaseData
+        st = self.viewer.state
+        for name in dir(type(st)):
+            prop = getattr(type(st), name, None)
+            if not isinstance(prop, SelectionCallbackProperty):
+                continue
+            try:
+                choices = [c for c in prop.get_choices(st) if not _is_separator(c)]
+            except Exception:
+                continue
+            sel = getattr(st, name)
+            if not choices:
+                if sel is not None:
+                    return ('picker[%s]' % name, None, str(sel), 'nothing to choose from but something is selected')
+                continue
+            if not any(sel is c or (not isinstance(c, (ComponentID, BaseData)) and sel == c) for c in choices):
+                return ('picker[%s]' % name, 'one of %s' % [str(c) for c in choices], str(sel), 'the selection is not among the choices')
+            for c in choices:
+                owner = c.parent if isinstance(c, ComponentID) else (c if isinstance(c, BaseData) else None)
+                if isinstance(owner, BaseData) and owner not in self.dc:
+                    return ('picker_stale[%s]' % name, 'choices from datasets of the collection', '%s of %s' % (c, owner.label),
+                            'the picker offers something of a dataset that is no longer in the collection')
+        return None
 
     def project(self):
         v = self.viewer
@@ -144,14 +200,17 @@ def replay_layers(beh):
                 return (i, 'exception[%s]' % a['op'], 'no exception', '%s: %s' % (type(e).__name__, str(e)[:200]), traceback.format_exc()[-400:])
             if st['delay'] != 0:
                 continue
-            want = sorted([[d, 0] for d in st['given'] if d in st['coll']] +
-                          [[d, g] for d in st['given'] if d in st['coll'] for g in st['groups']])
+            want = sorted([list(k) for k in st['layers']])
             la, lb = w.project()
             if sorted(la) != want:
                 return (i, 'viewer.layers', want, sorted(la), 'after %s' % a['op'])
             if la != lb:
                 return (i, 'state.layers', la, lb, 'viewer.layers and viewer.state.layers disagree after %s' % a['op'])
-            if beh['viewer'] == 'image' and la:
+            if beh['viewer'] != 'base':
+                pp = w.picker_problems()
+                if pp is not None:
+                    return (i, pp[0], pp[1], pp[2], pp[3] + ' (after %s)' % a['op'])
+            if beh['viewer'] == 'image' and any(k[1] == 0 for k in la):
                 s = w.viewer.state
                 if s.x_att is s.y_att or s.x_att not in s.reference_data.pixel_component_ids or s.y_att not in s.reference_data.pixel_component_ids:
                     return (i, 'image_axes', 'two distinct pixel axes of the reference data', '%s / %s' % (s.x_att, s.y_att), None)
